@@ -68,6 +68,31 @@ def check_algebra(ctx, R="C16.algebra"):
             ctx.ok(R, fn, f"{cls}.{meth}(X) = {want}")
         else:
             ctx.finding(R, fn, f"{cls}.{meth} law", f"{cls}.{meth} returns `{got}`, the set-algebra law requires `{want}`")
+    # membership in the combinator regions is the set-algebra formula (compared as truth tables over the operand queries,
+    # so the way the formula is written -- early returns, temporaries, De Morgan -- does not matter)
+    formulas = [
+        ("IntersectionRegion", "containsPoint", "all(r.containsPoint({p}) for r in self.footprint.regions)"),
+        ("IntersectionRegion", "containsObject", "all(r.containsObject({p}) for r in self.footprint.regions)"),
+        ("UnionRegion", "containsPoint", "any(r.containsPoint({p}) for r in self.footprint.regions)"),
+        ("DifferenceRegion", "containsPoint", "self.footprint.regionA.containsPoint({p}) and not self.footprint.regionB.containsPoint({p})"),
+        ("DifferenceRegion", "containsObject", "self.footprint.regionA.containsObject({p}) and not self.footprint.regionB.intersects({p}.occupiedSpace)"),
+    ]
+    for cls, meth, formula in formulas:
+        ci = model.cls(RG, cls)
+        fn = ci.methods.get(meth)
+        if fn is None:
+            ctx.finding(R, "src/scenic/core/regions.py", f"{cls}.{meth} missing", f"{cls}.{meth} is no longer defined", qualname=f"{cls}.{meth}")
+            continue
+        p_ = fn.args.args[1].arg
+        want = lib.bool_table(formula.format(p=p_))
+        got = lib.bool_table(fn)
+        if got == want:
+            ctx.ok(R, fn, f"{cls}.{meth} = {formula.format(p=p_)} (truth table over {len(want[0])} operand queries)")
+        elif got[0] != want[0]:
+            ctx.finding(R, fn, f"{cls}.{meth} queries", f"{cls}.{meth} asks its operands {got[0]}; set algebra requires {want[0]} (`{formula.format(p=p_)}`)")
+        else:
+            row = next(k for k in want[1] if want[1][k] != got[1][k])
+            ctx.finding(R, fn, f"{cls}.{meth} formula", f"{cls}.{meth} differs from `{formula.format(p=p_)}` when {dict(zip(want[0], row))}: it gives {got[1][row]}, set algebra {want[1][row]}")
     # Region.difference short-cuts
     fn = model.func(RG, "Region.difference")
     other = fn.args.args[1].arg
